@@ -47,23 +47,28 @@ typedef struct Cell {
     uint32_t r[8][MAXT];            /* last read clock per byte per thread (top bit: atomic read) */
     const void *wpc[8];
 } Cell;
-#define NCELL (1u << 17)
-static Cell *cells; static unsigned ncells_used;
+/* dense cell pool + small index table: a forked execution only touches (copy-on-write) the few pages it really uses */
+#define NCELL (1u << 14)
+#define NIDX (1u << 15)
+static Cell *cells; static unsigned ncells_used; static uint16_t *cidx;
 
+void *__real_calloc(size_t, size_t);
 void mon_init(void)
 {
-    cells = calloc(NCELL, sizeof(Cell));
-    if (!cells) { perror("shadow"); exit(2); }
+    cells = __real_calloc(NCELL, sizeof(Cell)); cidx = __real_calloc(NIDX, sizeof *cidx);
+    if (!cells || !cidx) { perror("shadow"); exit(2); }
+    ncells_used = 1;                      /* index 0 = empty slot marker */
 }
 
 static Cell *cell_get(uintptr_t gran, int create)
 {
-    unsigned long h = (gran >> 3) * 0x9E3779B97F4A7C15ul >> 40 & (NCELL - 1);
-    while (cells[h].gran) { if (cells[h].gran == (gran | 1)) return &cells[h]; h = (h + 1) & (NCELL - 1); }
+    unsigned long h = ((gran >> 3) * 0x9E3779B97F4A7C15ul >> 40) & (NIDX - 1);
+    while (cidx[h]) { if (cells[cidx[h]].gran == (gran | 1)) return &cells[cidx[h]]; h = (h + 1) & (NIDX - 1); }
     if (!create) return NULL;
-    if (++ncells_used > NCELL * 3 / 4) mc_engine_error("shadow memory exhausted (%u cells)", ncells_used);
-    cells[h].gran = gran | 1;
-    return &cells[h];
+    if (ncells_used >= NCELL) mc_engine_error("shadow memory exhausted (%u cells)", ncells_used);
+    cidx[h] = (uint16_t)ncells_used;
+    cells[ncells_used].gran = gran | 1;
+    return &cells[ncells_used++];
 }
 
 int addr_on_any_stack(const void *a)
